@@ -39,17 +39,20 @@ func removeTwoNodeCycles(g *graph.DGraph) {
 	type pair [2]*graph.Node
 
 	seen := map[pair]bool{}
-	rev := graph.EdgeSet{}
+	// edges to reverse, in edge list order so that the outcome doesn't depend on map iteration order
+	var rev []*graph.Edge
 
 	for _, e := range g.Edges {
 		a, b := e.From, e.To
-		if seen[pair{a, b}] || seen[pair{b, a}] {
-			rev[e] = true
+		// only an earlier edge in the opposite direction makes a two-node cycle;
+		// an earlier edge in the same direction is a harmless duplicate
+		if seen[pair{b, a}] {
+			rev = append(rev, e)
 		} else {
 			seen[pair{a, b}] = true
 		}
 	}
-	for e := range rev {
+	for _, e := range rev {
 		e.Reverse()
 	}
 }
